@@ -448,6 +448,10 @@ class Master(loader.Loader):
         """Run scheduler first time and update scheduled data."""
         placement = self.cell.schedule()
 
+        # We run two loops, like reschedule. First - remove all stale
+        # placement of all servers, before creating any new ones. This ensures
+        # that in the event of loop interruption for any reason there are no
+        # duplicate placements.
         for servername, server in self.cell.members().items():
             placement_node = z.path.placement(servername)
             self.backend.ensure_exists(placement_node)
@@ -458,6 +462,13 @@ class Master(loader.Loader):
             for app in current - correct:
                 _LOGGER.info('Unscheduling: %s - %s', servername, app)
                 self.backend.delete(os.path.join(placement_node, app))
+
+        for servername, server in self.cell.members().items():
+            placement_node = z.path.placement(servername)
+
+            current = set(self.backend.list(placement_node))
+            correct = set(server.apps.keys())
+
             for app in correct - current:
                 _LOGGER.info('Scheduling: %s - %s,%s',
                              servername, app, self.cell.apps[app].identity)
